@@ -50,8 +50,39 @@ def _concretise_ufs(e):
     return e
 
 
-def discharge(stats, hyps, goal, what, named=None, timeout_s=60, tactic=None):
+def relevant(hyps, goal, hops):
+    """hypotheses connected to the goal through shared variables within `hops` steps (fewer premises: still sound)"""
+    want = term_vars([goal])
+    hv = [(h, term_vars([h])) for h in hyps]
+    chosen = [False] * len(hv)
+    for _ in range(hops):
+        new = set()
+        for i, (h, vs) in enumerate(hv):
+            if not chosen[i] and vs & want:
+                chosen[i] = True
+                new |= vs
+        if not new - want:
+            break
+        want |= new
+    return [h for (h, _), c in zip(hv, chosen) if c]
+
+
+def discharge(stats, hyps, goal, what, named=None, timeout_s=60, tactic=None, hops=None):
     """prove goal under hyps or raise Violation / Inconclusive"""
+    if hops:
+        for hp in hops:
+            sub = relevant(hyps, goal, hp)
+            if len(sub) < len(hyps):
+                st, m, dt = smt.prove(sub, goal, min(timeout_s, 20), stats, tactic)
+                stats.log.append((what + " [%d-hop premises: %d of %d]" % (hp, len(sub), len(hyps)), st, round(dt, 3)))
+                if st == smt.UNSAT:
+                    return
+    if os.environ.get("VERIF_DUMP_QUERIES"):
+        import hashlib
+        d = os.environ["VERIF_DUMP_QUERIES"]
+        os.makedirs(d, exist_ok=True)
+        with open(os.path.join(d, hashlib.md5(what.encode()).hexdigest()[:10] + ".smt2"), "w") as f:
+            f.write("; " + what + "\n" + smt.to_smt2(list(hyps) + [z3.Not(goal)]) + "\n")
     st, m, dt = smt.prove(hyps, goal, timeout_s, stats, tactic)
     stats.log.append((what, st, round(dt, 3)))
     if st == smt.UNSAT:
@@ -177,8 +208,9 @@ def run_obligation(name, functions, bound, body, stubs=None):
     t0 = time.time()
     try:
         info = body(stats) or {}
+        slow = sorted(stats.log, key=lambda x: -x[2])[:3]
         return Result(name, "mirsmt", HOLDS, "", stats.seconds, functions, bound, stubs,
-                      stats=dict(queries=stats.n, wall_s=round(time.time() - t0, 2), **info))
+                      stats=dict(queries=stats.n, wall_s=round(time.time() - t0, 2), slowest=[(w[:60], s, t) for w, s, t in slow], **info))
     except Violation as v:
         return Result(name, "mirsmt", VIOLATED, v.detail, stats.seconds, functions, bound, stubs, ce=v.ce,
                       checks=[v.detail], stats=dict(queries=stats.n))
